@@ -15,6 +15,7 @@ use std::panic::{catch_unwind, AssertUnwindSafe};
 /// Step `i` of schedule `kind` (mirrors `nextStep` in lean/Driver/C11.lean).
 pub fn next_step(kind: u8, seed: u32, i: u64, rng: &mut Rng) -> usize {
     match kind {
+        5 => seed as usize,
         1 => (seed % 16 + 1) as usize,
         3 => {
             if i % 2 == 0 {
